@@ -17,10 +17,10 @@ def main(argv):
             print("SETUP-FAILURE flavour %s: %s" % (fl, e))
             rc = 2
     # harnesses: each check module may export prebuild()
-    cdir = os.path.join(vf.VERIF, "lib", "checks")
-    for f in sorted(os.listdir(cdir)):
-        if not f.startswith("c") or not f.endswith(".py"):
-            continue
+    import json
+    man = json.load(open(os.path.join(vf.VERIF, "MANIFEST.json")))
+    for c in man["checks"]:
+        f = c["property_id"].lower() + ".py"
         mod = importlib.import_module("checks." + f[:-3])
         pb = getattr(mod, "prebuild", None)
         if pb:
